@@ -28,13 +28,13 @@ KEEP_FUNCS = {
 
 
 def run(ctx) -> None:
-    ctx.rule("a.math-unnamed", "results of binary arithmetic / comparison / logical kernels are constructed with no name or name=None", 15)
+    ctx.rule("a.math-unnamed", "results of binary arithmetic / comparison / logical kernels are constructed with no name or name=None", 6)
     ctx.rule("b.structure-keeps", "copy (default), slicing, masking, index lists, sort_by, cast, fillna, to_object, .T pass the "
-                                  "receiver's stored name", 12)
+                                  "receiver's stored name", 6)
     ctx.rule("c.write-keeps", "in-place writes and promotion never store a name", 2)
     ctx.rule("d.table-scalar", "table (op) scalar: result column i takes the stored name of source column i", 1)
     ctx.rule("d.table-table", "table (op) table: _resolve_binary_name(left, right) is 'left if right is None or equal else None' for "
-                              "every pair over {None, '', 'n', 'm'} (exact evaluation), and its result is what the column gets", 17)
+                              "every pair over {None, '', 'n', 'm'} (exact evaluation), and its result is what the column gets", 8)
     ctx.rule("e.construction", "Table.__init__ restores the saved source names by position; >> {name: values} names a FRESH copy "
                                "with the dict key", 2)
     ctx.rule("f.joins", "join results: left column i / right column j take the stored name of their source column (as C09.e)", 3)
